@@ -681,60 +681,139 @@ func checkValidate(c *Ctx, v *ssa.Function, rule string) {
 			}
 		}
 	})
-	// every element in between: blocks[i].Num() is compared with start+i for the i of a loop that runs to the
-	// end of the slice (F-23: a correctly linked segment whose interior block carried another number was
-	// accepted, and the block map built from it was keyed by that number)
+	// every element in between: blocks[k].Num() is compared with start+k for every k from 1 (or 0) to len-1
+	// (F-23: a correctly linked segment whose interior block carried another number was accepted, and the
+	// block map built from it was keyed by that number).  Index forms and loop ranges are read the way the
+	// linkage rule reads them (affine index in a counted loop, up or down, i or i+1).
 	{
 		var everyNe []Edge
+		var unread []Edge // a number of SOME element is compared with something and a mismatch is an error, in a form that is not read
 		detailE := "no comparison of blocks[i].Num() with start+i in a loop over the segment"
+		isNumOf := func(x ssa.Value) (ssa.Value, bool) {
+			x = stripNum(x)
+			recv, isNum := valueMethodArg(x, "eth", "Block", "Num")
+			if !isNum {
+				if root, chain := fieldChain(x); chainIs(chain, c.W.Field("eth", "Block", "Header"), c.W.Field("eth", "Header", "Number")) || chainIs(chain, c.W.Field("eth", "Header", "Number")) {
+					recv, isNum = root, true
+				}
+			}
+			if !isNum {
+				if u, isU := x.(*ssa.UnOp); isU {
+					if al, isAl := u.X.(*ssa.Alloc); isAl {
+						if cvv := cellValue(al); cvv != nil {
+							return nil, false
+						}
+					}
+				}
+				return nil, false
+			}
+			return recv, true
+		}
 		reg0.AllInstrs(func(in ssa.Instruction) {
 			b, ok := in.(*ssa.BinOp)
 			if !ok || (b.Op != token.NEQ && b.Op != token.EQL) {
 				return
 			}
 			for _, pair := range [][2]ssa.Value{{b.X, b.Y}, {b.Y, b.X}} {
-				numSide, other := stripNum(pair[0]), stripNum(pair[1])
-				recv, isNum := valueMethodArg(numSide, "eth", "Block", "Num")
+				recv, isNum := isNumOf(pair[0])
 				if !isNum {
-					if root, chain := fieldChain(numSide); chainIs(chain, c.W.Field("eth", "Block", "Header"), c.W.Field("eth", "Header", "Number")) {
-						recv, isNum = root, true
+					// a local copy of the number: `got := blocks[i].Num()`
+					if ux := unfoldV(stripNum(pair[0])); ux.top() && ux.v != stripNum(pair[0]) {
+						recv, isNum = isNumOf(ux.v)
 					}
 				}
 				if !isNum {
 					continue
 				}
-				sl, idx, isElem := elemOf(recv)
-				if !isElem || !isBlocks(sl) {
+				other := stripNum(pair[1])
+				t, f := boolEdges(b)
+				ne := t
+				if b.Op == token.EQL {
+					ne = f
+				}
+				r := reg0.Resolve(stripConv(recv))
+				if fa, isFA := r.(*ssa.FieldAddr); isFA { // a pointer to the element's Header
+					r = reg0.Resolve(stripConv(fa.X))
+				}
+				sl, idx, isElem := elemOf(r)
+				if !isElem || !isBlocks(reg0.Resolve(stripConv(sl))) {
+					// an element of something derived from the blocks (a re-sliced walk, a moving pointer)
+					if _, isK := constInt(other); !isK {
+						unread = append(unread, ne...)
+					}
 					continue
 				}
 				if _, isConst := constInt(idx); isConst {
+					continue // the first / last tests
+				}
+				idxA := aff0.Of(idx)
+				wantA := aff0.Of(pStart).add(idxA)
+				if !linEq(aff0.Of(other), wantA) && !linEq(affOfC(aff0, cv(other), 0), wantA) {
+					unread = append(unread, ne...)
 					continue
 				}
-				if !linEq(aff0.Of(other), aff0.Of(pStart).add(aff0.Of(idx))) {
-					continue
+				// the loop variable inside the index expression, and the range it runs over
+				var cands []ssa.Value
+				var sub func(x ssa.Value, d int)
+				sub = func(x ssa.Value, d int) {
+					x = aff0.resolve(x)
+					cands = append(cands, x)
+					if bo, ok := x.(*ssa.BinOp); ok && d < 4 {
+						sub(bo.X, d+1)
+						sub(bo.Y, d+1)
+					}
 				}
-				// the index runs over the whole slice (from 0 or 1: element 0 has its own test)
-				lo, hi, _, _, okR := aff0.loopRange(rootIndex(idx))
-				if !okR || !(lo.isConst() && lo.c <= 1) || !linEq(hi.add(aff0.Of(idx)).sub(aff0.Of(rootIndex(idx))), aff0.lenOf(blocks, 0).add(aff0.Of(idx)).sub(aff0.Of(rootIndex(idx)))) {
-					detailE = "the comparison with start+i does not run over the whole segment"
-					continue
+				sub(idx, 0)
+				covered := false
+				for _, cand := range cands {
+					lo, hi, enter, header, okR := aff0.loopRange(cand)
+					if !okR {
+						continue
+					}
+					k := idxA.sub(aff0.Of(cand))
+					if !k.isConst() {
+						continue
+					}
+					first, end := lo.add(k), hi.add(k)
+					if !first.isConst() || first.c > 1 || first.c < 0 || !linEq(end, aff0.lenOf(blocks, 0)) {
+						detailE = fmt.Sprintf("the comparison with start+i runs over the elements [%s] up to but excluding [%s]; every element is [1] … [len-1]", first, end)
+						continue
+					}
+					// every iteration that goes on has passed the comparison
+					var lifted ssa.Instruction
+					for _, x := range reg0.chain(b) {
+						if x.Parent() == header.Parent() {
+							lifted = x
+						}
+					}
+					everyIter := lifted != nil
+					if everyIter {
+						for _, ed := range enter {
+							if hit, _ := reach(Site{ed.To, -1}, func(x ssa.Instruction) bool { return x.Block() == header }, newCuts().addInstr(lifted)); hit {
+								everyIter = false
+							}
+						}
+					}
+					if !everyIter {
+						detailE = "an iteration of the loop can skip the comparison with start+i"
+						continue
+					}
+					covered = true
 				}
-				if every, found := passesEveryCompletedIteration(b); !found || !every {
-					detailE = "the comparison with start+i is skipped in some iterations"
-					continue
+				if covered {
+					everyNe = append(everyNe, ne...)
 				}
-				t, f := boolEdges(b)
-				if b.Op == token.EQL {
-					t = f
-				}
-				everyNe = append(everyNe, t...)
 			}
 		})
 		okE := nonNilRet(everyNe)
-		if okE {
-			detailE = "every block of the segment is compared with the number that was asked for at its position; a mismatch is an error"
+		switch {
+		case okE:
+			c.Check(rule, "validate/number-of-every-element", v.Pos(), true, "every block of the segment is compared with the number that was asked for at its position; a mismatch is an error")
+		case len(everyNe) == 0 && len(unread) > 0 && nonNilRet(unread) && detailE == "no comparison of blocks[i].Num() with start+i in a loop over the segment":
+			c.OK(rule, "validate/number-of-every-element", v.Pos(), "block numbers are compared element by element and a mismatch is an error, but which elements and against what cannot be read from the index forms (a walk that re-slices the sequence, a running counter): not decided")
+		default:
+			c.Check(rule, "validate/number-of-every-element", v.Pos(), false, detailE)
 		}
-		c.Check(rule, "validate/number-of-every-element", v.Pos(), okE, detailE)
 	}
 	c.Check(rule, "validate/first==start", v.Pos(), nonNilRet(firstNe), "first block number != start is an error")
 	c.Check(rule, "validate/last==start+limit-1", v.Pos(), nonNilRet(lastNe), "last block number != start+limit-1 is an error")
@@ -1335,8 +1414,8 @@ func eqHelperOf(h *ssa.Function) *eqHelperSummary {
 			}
 		}
 		p, ok := root.(*ssa.Parameter)
-		if !ok || p.Parent() != h || len(chain) == 0 {
-			return nil
+		if !ok || p.Parent() != h || (len(chain) == 0 && !isByteSlice(p.Type())) {
+			return nil // (a byte-string parameter compared as it is: extends(b *Block, hash []byte))
 		}
 		sum.param[k], sum.chain[k] = paramIndex(p), chain
 	}
